@@ -659,16 +659,19 @@ class EFloatContext(EncodableContext):
                 if self.enable_inf:
                     return Float.inf(s=x.s, ctx=self)._with_flags(x)
                 return self.maxval(s=x.s)._with_flags(x)
-            return Float(s=x.s, x=self.nan_value, ctx=self)._with_flags(x)
+            y = Float(s=x.s, x=self.nan_value, ctx=self)._with_flags(x)
         elif x.isinf and not self.enable_inf:
             if self.inf_value is None:
                 if self.nan_kind != EFloatNanKind.NONE:
                     return Float.nan(s=x.s, ctx=self)._with_flags(x)
                 return self.maxval(s=x.s)._with_flags(x)
-            return Float(s=x.s, x=self.inf_value, ctx=self)._with_flags(x)
-        elif x.is_zero() and x.s and self.nan_kind == EFloatNanKind.NEG_ZERO:
-            return Float(x=x, s=False, ctx=self)._with_flags(x)
-        return x
+            y = Float(s=x.s, x=self.inf_value, ctx=self)._with_flags(x)
+        else:
+            y = x
+        # a substitute takes the operand's sign, so it may be `-0` as well
+        if y.is_zero() and y.s and self.nan_kind == EFloatNanKind.NEG_ZERO:
+            return Float(x=y, s=False, ctx=self)._with_flags(y)
+        return y
 
     def round(self, x, *, exact: bool = False) -> Float:
         y = self._mpb_ctx.round(x, exact=exact)
